@@ -174,7 +174,8 @@ def _run_shard(job):
     crc = 0
     samples = {}
     signal.signal(signal.SIGALRM, _on_alarm)
-    lib.MODE = 'int' if fam.name.endswith('#int') else 'float'
+    lib.MODE = 'int' if '#int' in fam.name else 'float'
+    lib.FORM = 'B' if '#formB' in fam.name else ('C' if '#formC' in fam.name else 'A')
     for scene in fam.scenes(shard):
         signal.setitimer(signal.ITIMER_REAL, fam.scene_timeout)
         try:
